@@ -364,7 +364,9 @@ def run_update_race(res: Result, seed: int) -> None:
     delta = rng.choice([1.0, 5.0, 15.0, 50.0, 100.0, 119.0, 200.0, 450.0, 900.0])     # query ... update
     qkind = rng.choice(["ptr", "txt", "srv", "any", "multi", "a", "a"] + (["a+keep", "a+keep"] if keeper else []))
     api = rng.choice(["update", "update", "unregister"])
-    desc = {"update_race": True, "change": change, "gap": gap, "delta": delta, "question": qkind, "api": api, "keeper": keeper is not None}
+    # a second querier asks the same a little later: its answer waits in a group of its own (later random send time)
+    q2 = rng.choice([None, None, 100.0, 300.0, 600.0])
+    desc = {"update_race": True, "change": change, "gap": gap, "delta": delta, "question": qkind, "api": api, "keeper": keeper is not None, "second_query_after": q2}
 
     def viol(kind: str, detail: str, **sig: Any) -> None:
         res.violation("c03.wire", kind, detail, dict(sig, family="update_race"), {"seed": seed, "update_race": True, "scenario": desc})
@@ -386,6 +388,9 @@ def run_update_race(res: Result, seed: int) -> None:
             qs = {"a+keep": [(old.server, 1, False), ("keep." + T, 33, False)], "ptr": [(T, 12, False)], "txt": [(old.name, 16, False)], "srv": [(old.name, 33, False)], "any": [(old.name, 255, False)],
                   "multi": [(T, 12, False), (old.name, 16, False)], "a": [(old.server, 1, False)]}[qkind]
             sim.net.inject_now(host, R.build_query(qs, id_=7), ("10.0.0.50", 5353))
+            if q2 is not None:
+                await sim.sleep_ms(q2)
+                sim.net.inject_now(host, R.build_query(qs, id_=8), ("10.0.0.51", 5353))
             await sim.sleep_ms(delta)
             out["U"] = sim.now_ms()
             out["mark"] = len(sim.net.trace)
@@ -427,7 +432,7 @@ def run_update_race(res: Result, seed: int) -> None:
                 viol("reply_reflects_old_state", "%s issued %.0f ms after a %s query arrived: %r (replaced by the %s) left the host with ttl %d %.0f ms after the change" % (
                     api, delta, qkind, ident, api, r.ttl, e["t"] - out["U"]), api=api, kind_of_record=ident[0])
                 break
-    res.cls("update_race", api, change, qkind, "gap=%d" % gap, "delta=%d" % delta)
+    res.cls("update_race", api, change, qkind, "gap=%d" % gap, "delta=%d" % delta, "q2=%s" % (q2 is not None))
 
 
 def run_blocking(res: Result, seed: int) -> None:
